@@ -248,6 +248,27 @@ func Payload(t *rapid.T, l spec.Layout, som byte, serial uint32, nBad int, noise
 			b[off] = rapid.Byte().Draw(t, "noise")
 		}
 	}
+	// now and then two fields of the same kind carry the SAME value (from = to, door 1 = door 2), or a whole group of adjacent
+	// fields is repeated (segment 2 = segment 1): values that were drawn independently practically never coincide
+	if len(l.Fields) >= 3 && rapid.IntRange(0, 5).Draw(t, "same.value") == 0 {
+		i := rapid.IntRange(0, len(l.Fields)-2).Draw(t, "same.from")
+		for j := i + 1; j < len(l.Fields); j++ {
+			if l.Fields[j].Kind != l.Fields[i].Kind || l.Fields[i].Kind == spec.Serial || badSet[i] || badSet[j] {
+				continue
+			}
+			if rapid.IntRange(0, 2).Draw(t, "same.skip") == 0 {
+				continue
+			}
+			w := l.Fields[i].Kind.Width()
+			copy(b[l.Fields[j].Off:l.Fields[j].Off+w], b[l.Fields[i].Off:l.Fields[i].Off+w])
+			// the neighbour too, when the layout repeats a group (start / end pairs)
+			if d := j - i; i+1 < j && j+1 < len(l.Fields) && l.Fields[i+1].Kind == l.Fields[j+1].Kind && !badSet[i+1] && !badSet[j+1] && d >= 2 {
+				w2 := l.Fields[i+1].Kind.Width()
+				copy(b[l.Fields[j+1].Off:l.Fields[j+1].Off+w2], b[l.Fields[i+1].Off:l.Fields[i+1].Off+w2])
+			}
+			break
+		}
+	}
 	return b
 }
 
